@@ -105,8 +105,18 @@ def rejections(ctx):
         t = look(t)
         return payload_of(t) is not None and first_crlf(payload_of(t))
 
+    def split_half(t, which):
+        """t is half `which` of bytes.split_at(end of the request line): the same two slices as bytes[..e] / bytes[e..]"""
+        t = look(t)
+        if t[0] == "field" and t[3] == which and is_call(look(t[1]), "split_at"):
+            sp = look(t[1])
+            return len(sp[2]) == 2 and is_arg(sp[2][0]) and rl_end(sp[2][1])
+        return False
+
     def rl_slice(t):
         t = look(t)
+        if split_half(t, "0"):
+            return True
         if not is_call(t, "index") or not is_arg(t[2][0]):
             return False
         r = look(t[2][1])
@@ -114,6 +124,8 @@ def rejections(ctx):
 
     def tail(t):
         t = look(t)
+        if split_half(t, "1"):
+            return True
         if not is_call(t, "index") or not is_arg(t[2][0]):
             return False
         r = look(t[2][1])
